@@ -100,7 +100,18 @@ def run(ck: Checker, prog: Program, tier: str):
                              loc=f.loc())
         n_eff_sites += len(s.effects)
 
-    # ---- R2c: the FFT length chosen for one call must not become the request of the next
+    ck.guard(_r2c, ck, prog)
+    ck.extra["entry_points"] = todo
+    ck.extra["calls_resolved"] = eng.calls_resolved
+    ck.extra["calls_through_unknown_values"] = eng.unresolved[:20]
+    ck.extra["externals_assumed_pure"] = dict(eng.assumed_pure)
+    ck.extra["summaries_computed"] = len(eng.summaries)
+
+
+def _r2c(ck: Checker, prog: Program):
+    """R2c: the FFT length chosen for one call must not become the request of the next."""
+    eng = engine(prog)
+    entry = prog.func(ENTRY)
     s_entry = eng.summary(entry)
     entry_writes = [e for e in s_entry.effects if e.origin[0] == "P" and e.origin[1] == 1]
     tab = fftlen.extract(prog)
@@ -128,11 +139,6 @@ def run(ck: Checker, prog: Program, tier: str):
                          f"not repeatable: this call stores n={st.value} (M=max record length, d>0) but the next call "
                          f"with the same records and settings stores n={nxt}",
                          loc=tab.func.loc(st.stmt))
-    ck.extra["entry_points"] = todo
-    ck.extra["calls_resolved"] = eng.calls_resolved
-    ck.extra["calls_through_unknown_values"] = eng.unresolved[:20]
-    ck.extra["externals_assumed_pure"] = dict(eng.assumed_pure)
-    ck.extra["summaries_computed"] = len(eng.summaries)
 
 
 def _first_loc(e, func):
